@@ -5,6 +5,7 @@ escapes optimize() (or a valid construction) is a violation keyed by its innermo
 from ..common import Report, pmap
 from ..e1 import E1Sink, gate, replay_case, vacuity_floor
 from ..explore import explore
+from ..optsweep import sweep_jobs
 from ..harness import execute
 from .c02 import cons_spec, slab_start
 
@@ -98,6 +99,8 @@ def run(ctx):
     # (g) single GP fit faults (multi-fault patterns belong to C16)
     ft = [job(D, "lin", m, None, seeds[0]) for D in Ds[:2] for m in ("det", "decl", "spec")]
     st = explore(ft, ["fit"], 1, sink, stats=st, name="fit-fault/b1")
+    sw = sweep_jobs(lambda D, m, o: job(D, "lin", m, None if D == 1 else "ball", seeds[0], target="sphere_in", opts=o), q, modes=("det", "auto", "decl", "spec"))
+    st = explore(sw, ["ans", "noise"], 0, sink, stats=st, name="option-variants")
     sink.finish_cov(st)
     rep.set("gate_jobs", ng)
     vacuity_floor(rep, sink, 100)
